@@ -60,6 +60,7 @@ func (matcher *requestResponseMatcher) registerRequest(ident string, method stri
 		},
 	}
 
+	verifAwaitLock(&matcher.registerLock, "amqp.registerRequest.lock")
 	matcher.registerLock.Lock()
 	defer matcher.registerLock.Unlock()
 	if response, found := matcher.openMessagesMap.LoadAndDelete(ident); found {
@@ -71,6 +72,7 @@ func (matcher *requestResponseMatcher) registerRequest(ident string, method stri
 		return matcher.preparePair(&requestAMQPMessage, responseAMQPMessage)
 	}
 
+	verifYield("amqp.registerRequest.store")
 	matcher.openMessagesMap.Store(ident, &requestAMQPMessage)
 	return nil
 }
@@ -89,6 +91,7 @@ func (matcher *requestResponseMatcher) registerResponse(ident string, method str
 		},
 	}
 
+	verifAwaitLock(&matcher.registerLock, "amqp.registerResponse.lock")
 	matcher.registerLock.Lock()
 	defer matcher.registerLock.Unlock()
 	if request, found := matcher.openMessagesMap.LoadAndDelete(ident); found {
@@ -100,6 +103,7 @@ func (matcher *requestResponseMatcher) registerResponse(ident string, method str
 		return matcher.preparePair(requestAMQPMessage, &responseAMQPMessage)
 	}
 
+	verifYield("amqp.registerResponse.store")
 	matcher.openMessagesMap.Store(ident, &responseAMQPMessage)
 	return nil
 }
